@@ -90,6 +90,7 @@ func (k Keeper) SwapByDenom(ctx sdk.Context, msg *types.MsgSwapByDenom) (*types.
 			ctx,
 			&types.MsgSwapExactAmountOut{
 				Sender:           msg.Sender,
+				Recipient:        msg.Recipient,
 				Routes:           route,
 				TokenInMaxAmount: msg.MaxAmount.Amount,
 				TokenOut:         msg.Amount,
